@@ -44,6 +44,7 @@ func init() {
 
 	// C07.tojson
 	c("c07-tojson-indent", "C07.tojson", "format/json/json.jq", "def tojson: _to_json(null);", "def tojson: _to_json({indent: 2});", "tojson/0")
+	c("c07-tojson-indent-floor", "C07.tojson", "format/json/json.go", "min(max(0, opts.Indent), maxIndent)", "min(max(2, opts.Indent), maxIndent)", "_to_json/1:options.Indent")
 	c("c07-tojson-usenumber", "C07.tojson", "format/json/json.go", "\tjd.UseNumber()\n", "", "UseNumber")
 	c("c07-tojson-normalize", "C07.tojson", "format/json/json.go", "s.Actual = gojq.NormalizeNumbers(vs[0])", "s.Actual = vs[0]", "Normalize")
 	c("c07-tojson-wrong-value", "C07.tojson", "format/json/json.go", "cj.Marshal(c, bb)", "cj.Marshal(opts, bb)", "marshal-input")
